@@ -1,10 +1,10 @@
 package main
 
 import (
-	"math/big"
 	"bytes"
 	"crypto/sha256"
 	"fmt"
+	"math/big"
 	"strings"
 	"sync"
 	"sync/atomic"
